@@ -138,6 +138,16 @@ var props = []*prop{
 		Thorough:    budget{Shards: 14, Checks: 100000, TimeoutS: 3000},
 	},
 	{
+		ID: "C12", Pkg: "c12", Level: "exploration",
+		Technique:   "property-based testing (rapid) with deep before/after snapshots of every input (instance, reference-free schema, parameter/header definition, loaded document)",
+		LevelText:   "Generated inputs of the C01/C16/C03 domains are validated through every entry point; each input is compared after the call with an independently built pristine copy (reflect.DeepEqual and JSON rendering; doc.Raw() bytes and doc.Spec() JSON for documents).",
+		LevelNote:   "Trusted: reflect.DeepEqual / encoding/json as the notion of 'unchanged'; schemas with $ref are only checked for the instance claim (in-place expansion is outside the property).",
+		Assumptions: trusted,
+		Builds:      plain,
+		Quick:       budget{Shards: 14, Checks: 5000, TimeoutS: 400},
+		Thorough:    budget{Shards: 14, Checks: 120000, TimeoutS: 3000},
+	},
+	{
 		ID: "C13", Pkg: "c13", Level: "exploration",
 		Technique:   "property-based testing (rapid): exact big.Rat arithmetic as oracle, plus the metamorphic relation 'all Go carriers of one mathematical value get the same verdict'",
 		LevelText:   "Generated (value, carrier kind, constraint, entry point) tuples with exactly representable values over all signed/unsigned integer kinds, float32, float64 and json.Number, through AgainstSchema, parameter and header validators and the exported helpers incl. the *NativeType facades; verdicts compared with exact rational arithmetic and across carriers.",
